@@ -69,16 +69,19 @@ def getMeta (o : Opts) (st : PSt) (k : String) (now : Int) : Except Err Meta :=
   | .error e => .error e
   | .ok m => if m.permitted o.loc o.int then .ok m else .error .denied
 
-/-- `Interface.Put` / `PutNew`: without all permissions `getMeta` first, where not-found means "go ahead". -/
+/-- The permission pre-check of `Interface.Put` / `PutNew`: without all permissions `getMeta` first, where
+    not-found means "nothing there, go ahead". -/
+def putPre (o : Opts) (st : PSt) (k : String) (now : Int) : Option Err :=
+  if !o.all then
+    match getMeta o st k now with
+    | .error .notFound => none
+    | .error e => some e
+    | .ok _ => none
+  else none
+
+/-- `Interface.Put` / `PutNew`. -/
 def ifPut (o : Opts) (st : PSt) (r : Rec) (now : Int) (isNew : Bool) : PSt × Out :=
-  let pre : Option Err :=
-    if !o.all then
-      match getMeta o st r.key now with
-      | .error .notFound => none
-      | .error e => some e
-      | .ok _ => none
-    else none
-  match pre with
+  match putPre o st r.key now with
   | some e => (st, .err e)
   | none =>
     let m := if isNew then r.md.reset else r.md
